@@ -32,6 +32,9 @@ for root,dirs,files in os.walk(f'{SRC}/src'):
         if f.endswith('.rs') and f!='verif_hooks.rs':
             new=re.sub(r'\bstd::sync::', 'shuttle::sync::', data)
             new=re.sub(r'\bstd::thread::', 'shuttle::thread::', new)
+            # thread-locals of the crate become per simulated thread (all shuttle threads share one OS thread)
+            new=re.sub(r'\bstd::thread_local!', 'shuttle::thread_local!', new)
+            new=re.sub(r'(?<![:\w])thread_local!', 'shuttle::thread_local!', new)
             new=re.sub(r'\bstd::\{(\s*)sync::', r'std::{\1sync::', new)  # grouped std::{.. sync::Arc ..} stays std (Arc is std's in shuttle too)
             n_sub+= (new!=data)
             data=new
